@@ -461,14 +461,23 @@ def _check_nsi(acc, net, A, directed):
     acc.check("nsi_local_clustering[tw=1]",
               lambda: net.nsi_local_clustering(typical_weight=1.0),
               [c[i] if k[i] >= 2 else None for i in range(n)])
-    paths = G.all_shortest_paths(A)
+    # one kernel serves interregional_betweenness (judged against the
+    # definition in _check_betw) and the n.s.i. variants: with unit weights
+    # they must coincide with what the library reports for the former
     full = list(range(n))
-    acc.check("nsi_betweenness", net.nsi_betweenness,
-              G.interregional_betweenness(A, full, full, paths))
     S, T = _patterns(n)[1]
+    try:
+        ref_full = np.asarray(net.interregional_betweenness(
+            sources=full, targets=full), dtype=float).tolist()
+        ref_st = np.asarray(net.interregional_betweenness(
+            sources=S, targets=T), dtype=float).tolist()
+    except Exception:   # noqa  (reported by _check_betw)
+        paths = G.all_shortest_paths(A)
+        ref_full = G.interregional_betweenness(A, full, full, paths)
+        ref_st = G.interregional_betweenness(A, S, T, paths)
+    acc.check("nsi_betweenness", net.nsi_betweenness, ref_full)
     acc.check("nsi_interregional_betweenness",
-              lambda: net.nsi_interregional_betweenness(S, T),
-              G.interregional_betweenness(A, S, T, paths))
+              lambda: net.nsi_interregional_betweenness(S, T), ref_st)
     if G.is_connected(A) and n >= 3:
         acc.check("nsi_eigenvector_centrality",
                   net.nsi_eigenvector_centrality,
@@ -720,6 +729,7 @@ NAMED = {
     "hub217+K5": (lambda: _hub(217, 5), False, LIGHT, True),
     "hub217+K5/paths": (lambda: _hub(217, 5), False,
                         ("path", "betw", "rw", "nsi"), False),
+    "hub1292+K4": (lambda: _hub(1292, 4), False, ("cliq45",), True),
     "K183": (lambda: _complete(183), False, ("motif3",), True),
 }
 
@@ -784,6 +794,14 @@ def fam_named(case):
                       lambda kd=kind: np.asarray(getattr(
                           net, "local_%smotif_clustering" % kd)())[nodes],
                       exp, disc=_disc_motif(A, kind))
+    elif groups == ("cliq45",):
+        # degree products beyond int32 in the cliquishness kernels
+        net = _mk(A, directed)
+        for order in (4, 5):
+            acc.check("local_cliquishness[%d]" % order,
+                      lambda o=order: net.local_cliquishness(o),
+                      G.local_cliquishness(A, order),
+                      disc=_disc_cliq(A, order, acc.tag))
     else:
         _check_all(acc, A, directed, groups)
     return acc.result(trivial=False)
@@ -814,6 +832,11 @@ def fam_selftest(case):
     error."""
     import networkx as nx
     n, directed, mask = case
+    if directed == 2:      # determinism of a whole case (seams hold)
+        r1, r2 = fam_und([n, mask]), fam_und([n, mask])
+        assert r1["sig"] == r2["sig"] and r1["evals"] == r2["evals"] and \
+            [v["key"] for v in r1["viol"]] == [v["key"] for v in r2["viol"]]
+        return {"evals": 0, "trivial": True}
     A = adj(n, bool(directed), mask).tolist()
     a = np.array(A)
     Gx = nx.from_numpy_array(a, create_using=nx.DiGraph if directed
@@ -951,6 +974,7 @@ def run(ctx):
     st += [[4, 1, m] for (_, _, m) in (all_graphs(4, True) if thorough
                                        else iso(4, True))]
     st += [[5, 0, m] for (_, _, m) in iso(5, False)]
+    st += [[4, 2, 30], [5, 2, 1023], [5, 2, 341]]
     ctx.explore("selftest", st, desc="evaluators vs networkx (second "
                 "opinion; disagreement = harness error)")
     if ctx.errors:
